@@ -200,6 +200,33 @@ c16!(c16_anm06_read_size3, 12, read_instr_never_panics::<7>(&InstrFormat06, 3, 1
 //@ C16 c16_anm07_read_size9 quick default ANM v2+: read_instr on arbitrary header bytes whose size field is 9 (one more than the header) returns Ok or Err and never panics (no underflow, no failed assert, no out-of-range read)
 c16!(c16_anm07_read_size9, 13, read_instr_never_panics::<9>(&InstrFormat07, 2, 2, 9));
 
+//@ C16 c16_anm_header_new_no_panic quick default ANM entry header (TH07+ layout): read_header on 64 arbitrary bytes returns a header or an error and never panics
+c16!(c16_anm_header_new_no_panic, 8, {
+    let root = crate::verif_common::noop_emitter();
+    let cut = crate::verif_common::CutEmitter;
+    let format = FileFormat::from_game(Game::Th12);
+    let bytes: [u8; 64] = kani::any();
+    let mut r = BinReader::from_reader(&root, "x", std::io::Cursor::new(bytes.to_vec()));
+    match format.read_header(&mut r, &cut) {
+        Ok(h) => core::mem::forget(h),
+        Err(e) => core::mem::forget(e),
+    }
+    core::mem::forget(r); core::mem::forget(format); core::mem::forget(root);
+});
+//@ C16 c16_anm_header_old_no_panic quick default ANM entry header (TH06 layout): read_header on 64 arbitrary bytes returns a header or an error and never panics
+c16!(c16_anm_header_old_no_panic, 8, {
+    let root = crate::verif_common::noop_emitter();
+    let cut = crate::verif_common::CutEmitter;
+    let format = FileFormat::from_game(Game::Th06);
+    let bytes: [u8; 64] = kani::any();
+    let mut r = BinReader::from_reader(&root, "x", std::io::Cursor::new(bytes.to_vec()));
+    match format.read_header(&mut r, &cut) {
+        Ok(h) => core::mem::forget(h),
+        Err(e) => core::mem::forget(e),
+    }
+    core::mem::forget(r); core::mem::forget(format); core::mem::forget(root);
+});
+
 #[cfg(kani)]
 #[path = "/verif/.cache/playback/anm_read_write.rs"]
 mod playback;
